@@ -84,8 +84,8 @@ func run(c *vh.Ctx) error {
 		}
 	}
 
-	nOracle := c.N(700, 9000)
-	nCorr := c.N(300, 4000)
+	nOracle := c.N(2500, 30000)
+	nCorr := c.N(1000, 12000)
 	if c.Search {
 		nOracle *= 3
 	}
